@@ -234,13 +234,24 @@ def run(run):
                     run.case(h64(('B', kind, m['fc'], m.get('sub'), q, exc)), True,
                              sample={'part': 'reads', 'client': kind, 'fc': m['fc'], 'quantity': q, 'exception_reply': exc, 'verdict': 'held' if ok else 'differs'},
                              sample_class=('B', kind, exc))
-    run.exhaustive = True
+    if run.thorough:
+        # part C: real client <-> real server over loopback with the serial framings: a prediction that is too short makes the
+        # client stop before the checksum (error object), one that is too long makes it wait for its whole timeout
+        from . import loopclient
+        loopclient.histories(run, r, [0], 25, framings=('rtu', 'ascii', 'binary'), prop='C14')
+        run.floor('real-socket transactions', sum(v for k, v in run.counters.items() if k.startswith('loopclient_transactions:')), 500)
+    run.exhaustive = not run.thorough
     run.floor('size comparisons', run.counters.get('size_comparisons', 0), 50000)
     run.floor('client read transactions', run.counters.get('read_transactions', 0), 800)
     repo.reset_globals()
 
 
 def replay(run, case):
+    if case.get('loopclient'):
+        from . import loopclient
+        case['layout']['units'] = {int(k): v for k, v in case['layout']['units'].items()}
+        loopclient.one(run, case, 'C14')
+        return
     m = case['m']
     if case['part'] == 'sizes':
         print('held' if size_case(run, m) else 'differs')
